@@ -1770,7 +1770,8 @@ pub fn content(r: &mut Rng, class: usize) -> Vec<u8> {
             }
             let start = v.len();
             let p: usize = if r.chance(1, 24) { 1 << 20 } else { *r.pick(&[8192usize, 8192, 16384, 32768, 65536, 65536, 131072]) };
-            let n = p + r.range(8, 808);
+            // (one time in four the line goes on for more than two further pieces)
+            let n = if r.chance(1, 4) && p <= 131_072 { 3 * p + r.range(8, 808) } else { p + r.range(8, 808) };
             v.extend((0..n).map(|_| *r.pick(b"abcdefgh $NetBS")));
             match r.below(6) {
                 0 | 1 | 2 => {
